@@ -71,6 +71,8 @@ def make_registry():
     cm.install(reg)
     for c in CONTRACTS:
         reg.add_contract(c)
+    for c in (C_CURAB, C_CURROT):   # verified on their own AND interpreted inline inside reconstruct (its frame clause sees their effects)
+        reg.contracts.pop(c.func, None)
     reg.contracts[C_ITER_USE.func] = C_ITER_USE   # at call sites: the statement; the body of __iter__ is verified below (C09.C_ITER)
     C09._REG_HOLDER["reg"] = reg
     reg.inline.add(f"{PU}:SimpleBatcher.rng")
@@ -1056,6 +1058,88 @@ C_ITER_USE = Contract(C09.C_ITER.func, setup=C09.it_setup, requires=C09.C_ITER.r
                       note="statement proved in contracts/C09.py (partition of the training positions into consecutive batches)")
 
 
+
+# ------------------------------------------------------------------------------------------------
+# HyperparameterState getters: "a function of the hyper-parameters only" needs them to be PURE - a fresh mapping is returned and
+# no stored container (initial / optimized aberrations, keys, the caller's override dict) is rebound or mutated
+# ------------------------------------------------------------------------------------------------
+def hps_obj(ctx, opt_empty, opt_rot=None, init_rot="sym"):
+    return Obj(HPS, dict(initial_aberrations={k: real(ctx, f"init_{k}") for k in ("C10", "C12", "phi12", "C30")},
+                         initial_rotation_angle=real(ctx, "init_rot") if init_rot == "sym" else None,
+                         optimized_aberrations={} if opt_empty else {"C10": real(ctx, "opt_C10"), "C21": real(ctx, "opt_C21")},
+                         optimized_rotation_angle=opt_rot, optimized_keys=set() if opt_empty else {"C10", "C21"}, study=None))
+
+
+def ca_setup(ctx):
+    opt_empty = ctx.branch(ctx.fresh("optimized_is_empty", "bool").t)
+    init_empty = ctx.branch(ctx.fresh("initial_is_empty", "bool").t)
+    o = hps_obj(ctx, opt_empty)
+    if init_empty:
+        o.fields["initial_aberrations"] = {}
+    ovr = None if ctx.branch(ctx.fresh("override_is_none", "bool").t) else {"C10": real(ctx, "ovr_C10"), "C23": real(ctx, "ovr_C23")}
+    return NS(self=o, override_fixed=ovr)
+
+
+def ca_spec(s):
+    st = s.self.fields
+    return {**st["initial_aberrations"], **st["optimized_aberrations"], **(dict(s.override_fixed) if s.override_fixed is not None else {})}
+
+
+def getter_snapshot(s):
+    return NS(state=container_snapshot(s.self.fields), args=container_snapshot({"override_fixed": s.get("override_fixed")}))
+
+
+def getter_frame(s):
+    ch = container_changes(s.self.fields, s.old.state) + container_changes({"override_fixed": s.get("override_fixed")}, s.old.args, "argument ")
+    return ("frame: no stored hyper-parameter container (nor the caller's override) is rebound or mutated", msg_goal(not ch, ch))
+
+
+def ca_ensures(s):
+    r, st = s.result, s.self.fields
+    want = ca_spec(s) if s.mode == "apply" else s.old.want
+    aliases = [n for n, d in (("initial_aberrations", st["initial_aberrations"]), ("optimized_aberrations", st["optimized_aberrations"]),
+                              ("override_fixed", s.override_fixed)) if r is d]
+    same = type(r) is dict and set(r) == set(want) and all(r[k] is want[k] for k in want)
+    return [("returns a FRESH mapping (not one of the stored / passed dictionaries)", msg_goal(type(r) is dict and not aliases, f"result aliases {aliases}")),
+            ("contents = initial, overridden by optimized, overridden by the one-off override", msg_goal(same, f"{sorted(r) if type(r) is dict else r} vs {sorted(want)}")),
+            getter_frame(s)]
+
+
+def ca_snapshot(s):
+    o = getter_snapshot(s)
+    o.want = ca_spec(s)   # the specified mapping is computed from the state BEFORE the call
+    return o
+
+
+C_CURAB = Contract(f"{DP}:HyperparameterState.current_aberrations", setup=ca_setup, requires=stash, ensures=ca_ensures, snapshot=ca_snapshot,
+                   result=lambda ctx, s: ca_spec(s))
+
+
+def cr_setup(ctx):
+    def opt(name):
+        return None if ctx.branch(ctx.fresh(name + "_is_none", "bool").t) else real(ctx, name)
+    o = hps_obj(ctx, True, opt_rot=opt("optimized_rotation"))
+    o.fields["initial_rotation_angle"] = opt("initial_rotation")
+    return NS(self=o, override_fixed=opt("override_rotation"))
+
+
+def cr_spec(s):
+    st = s.self.fields
+    for v in (s.override_fixed, st["optimized_rotation_angle"], st["initial_rotation_angle"]):
+        if v is not None:
+            return v
+    return 0.0
+
+
+def cr_ensures(s):
+    want = cr_spec(s)
+    ok = (s.result is want) if isinstance(want, Sym) else (s.result == 0.0 and not isinstance(s.result, Sym))
+    return [("override, else optimized, else initial, else 0", msg_goal(ok, f"{s.result} vs {want}")), getter_frame(s)]
+
+
+C_CURROT = Contract(f"{DP}:HyperparameterState.current_rotation_angle", setup=cr_setup, requires=stash, ensures=cr_ensures, snapshot=getter_snapshot,
+                    result=lambda ctx, s: cr_spec(s))
+
 # ------------------------------------------------------------------------------------------------
 # reconstruct
 # ------------------------------------------------------------------------------------------------
@@ -1087,6 +1171,8 @@ def rc_setup(ctx):
         hyper, has_u, has_mbs, has_lp, has_hp = pick(ctx, "options_row", OPTION_ROWS)
     u = ctx.fresh("u", "int") if has_u else None
     mbs = ctx.fresh("max_batch_size", "int") if has_mbs else None
+    if (pick(ctx, "optimized_empty", [0, 1]) if FULL_PRODUCT else hyper == "override"):
+        o.fields["hyperparameter_state"].fields["optimized_aberrations"] = {}   # nothing optimised yet (getter contracts cross this fully)
     return NS(self=o, bf_mask=m, override_aberration_coefs={"C10": real(ctx, "ovr_C10"), "C30": real(ctx, "ovr_C30")} if hyper == "override" else None,
               upsampling_factor=u, override_rotation_angle=real(ctx, "ovr_rot") if hyper == "override" else None, max_batch_size=mbs,
               deconvolution_kernel=KERNEL_SPELLING[kernel], q_highpass=real(ctx, "q_highpass", True) if has_hp else None,
@@ -1106,9 +1192,31 @@ def rc_requires(s):
     return r
 
 
+def container_snapshot(fields):
+    """identity + contents of every stored value (python dicts / sets / lists are real containers in the interpreter)."""
+    return {k: (v, dict(v) if type(v) is dict else set(v) if type(v) is set else list(v) if type(v) is list else None) for k, v in fields.items()}
+
+
+def container_changes(fields, snap, prefix=""):
+    ch = []
+    for k, (v0, c0) in snap.items():
+        v = fields.get(k, "<deleted>")
+        if v is not v0:
+            ch.append(f"{prefix}{k} rebound")
+        elif type(v0) is dict and (list(v.keys()) != list(c0.keys()) or any(v[x] is not c0[x] for x in c0)):
+            diff = sorted(set(v) ^ set(c0)) + sorted(x for x in c0 if x in v and v[x] is not c0[x])
+            ch.append(f"{prefix}{k} mutated in place (keys {diff})")
+        elif type(v0) in (set, list) and v != c0:
+            ch.append(f"{prefix}{k} mutated in place")
+    ch += [f"{prefix}{k} added" for k in fields if k not in snap]
+    return ch
+
+
 def rc_snapshot(s):
     o = s.self
-    return NS(fields={k: v for k, v in o.fields.items()}, state=dict(o.fields["hyperparameter_state"].fields))
+    ovr = s.override_aberration_coefs
+    return NS(fields=container_snapshot(o.fields), state=container_snapshot(o.fields["hyperparameter_state"].fields),
+              args=container_snapshot({"override_aberration_coefs": ovr}))
 
 
 PASS_ELEM = {0: ("L", "free"), 1: ("L", "M")}   # declared row type of the buffer after pass 1 / pass 2 (invariant annotation)
@@ -1201,10 +1309,13 @@ def rc_ensures(s):
         out.append(("single-pass: corrected_stack = (mask-free row value) / (additive weight of the requested mask)",
                     msg_goal(is_tt(res, mk="free/AF") and res.af is s.mask_tt.ref, f"{describe(res)} weight summed over {getattr(res, 'af', None)!r}")))
     # frame: nothing but the result is written
-    changed = [k for k, v in o.fields.items() if k != "_corrected_stack" and s.old.fields.get(k) is not v]
-    hs = o.fields["hyperparameter_state"].fields
-    changed += [f"hyperparameter_state.{k}" for k, v in hs.items() if s.old.state.get(k) is not v]
-    out.append(("frame: only corrected_stack is written", msg_goal(not changed, f"also written: {changed}")))
+    snap = dict(s.old.fields)
+    snap.pop("_corrected_stack", None)
+    changed = [c for c in container_changes({k: v for k, v in o.fields.items() if k != "_corrected_stack"}, snap)]
+    changed += container_changes(o.fields["hyperparameter_state"].fields, s.old.state, "hyperparameter_state.")
+    changed += container_changes({"override_aberration_coefs": s.override_aberration_coefs}, s.old.args, "argument ")
+    out.append(("frame: only corrected_stack is written (identity and contents of every stored hyper-parameter container unchanged)",
+                msg_goal(not changed, f"also written: {changed}")))
     return out
 
 
@@ -1215,7 +1326,7 @@ C_RECONSTRUCT = Contract(
     max_paths=6000)
 
 # SimpleBatcher.__iter__ / __len__: the contracts of contracts/C09.py, re-verified in this check because reconstruct relies on the partition
-CONTRACTS = [C_KERNELNAME, C_PREPROCESS, C_BFCONTEXT, C_GAMMA, C_KERNEL, C_RECONSTRUCT, C09.C_ITER, C09.C_LEN]
+CONTRACTS = [C_KERNELNAME, C_PREPROCESS, C_BFCONTEXT, C_GAMMA, C_KERNEL, C_CURAB, C_CURROT, C_RECONSTRUCT, C09.C_ITER, C09.C_LEN]
 
 
 # ------------------------------------------------------------------------------------------------
